@@ -67,7 +67,7 @@ func (f *Filter) Write(p []byte) (n int, err error) {
 		for {
 			i := bytes.IndexByte(w, '\n')
 			if i == -1 {
-				f.column += len(w)
+				f.column += utf16Len(w)
 				break
 			}
 			f.line++
@@ -96,6 +96,24 @@ func (f *Filter) Write(p []byte) (n int, err error) {
 		p = p[i+length:]
 		n += length
 	}
+}
+
+// utf16Len returns the number of UTF-16 code units that the UTF-8 bytes in b
+// encode, which is the unit source map consumers count generated columns in.
+// Counting byte by byte keeps the result independent of how a multi-byte
+// sequence is split between Write calls: every non-continuation byte starts a
+// code point and a code point encoded in four bytes needs a surrogate pair.
+func utf16Len(b []byte) int {
+	n := 0
+	for _, c := range b {
+		if c&0xC0 != 0x80 {
+			n++
+		}
+		if c >= 0xF0 {
+			n++
+		}
+	}
+	return n
 }
 
 func (f *Filter) WriteJS(jsSource, jsFilePath string, minify bool) (n int, err error) {
